@@ -86,6 +86,20 @@ func BaseGraph(variant int) *Graph {
 	scal(b1, "b1", 3)
 	scal(b2, "b2", 4)
 	scal(c1, "c1", 5)
+	defer func() {
+		// vkids: the non-null kids once more (carried as struct values by the reflection back end)
+		for _, n := range g.Nodes {
+			if l, ok := n.F["kids"].([]interface{}); ok {
+				vl := []interface{}{}
+				for _, e := range l {
+					if kn, _ := e.(*Node); kn != nil {
+						vl = append(vl, kn)
+					}
+				}
+				n.F["vkids"] = vl
+			}
+		}
+	}()
 	if variant == 2 {
 		q.F["a"] = a1
 		q.F["kid"] = a1
